@@ -320,6 +320,14 @@ func (g *gen) stmtInsert(db *MDB, t *MTable, nrows int) Stmt {
 			s.ColNames = append(s.ColNames, c.Name)
 		}
 	}
+	if len(idxs) > 1 && g.r.Chance(0.5) {
+		// column list in another order than the schema's
+		for i := len(idxs) - 1; i > 0; i-- {
+			j := g.r.Intn(i + 1)
+			idxs[i], idxs[j] = idxs[j], idxs[i]
+			s.ColNames[i], s.ColNames[j] = s.ColNames[j], s.ColNames[i]
+		}
+	}
 	for i := 0; i < nrows; i++ {
 		full := g.genRow(db.Name, t, text)
 		if len(idxs) > 0 {
